@@ -10,3 +10,18 @@ func lemmaMergedKeyInjective(ma, mb []byte, a, b []string) {
 	for i := 0; i < len(a); i++ {
 	}
 }
+
+// lemmaJoinedInjective: two separator-free key tuples of the same arity whose ids (strings.Join with a one-byte
+// separator) are equal are equal. pa, pb are the (ghost) start positions of the elements; the reads in the body only
+// name the bytes the argument is about (the byte after the shorter element is the separator in one id and an element
+// byte in the other).
+func lemmaJoinedInjective(ma, mb string, a, b []string, c byte, pa, pb []int) {
+	for i := 0; i < len(a); i++ {
+		la, lb := len(a[i]), len(b[i])
+		if la < lb {
+			_, _, _ = ma[pa[i]+la], mb[pb[i]+la], b[i][la]
+		} else if lb < la {
+			_, _, _ = ma[pa[i]+lb], mb[pb[i]+lb], a[i][lb]
+		}
+	}
+}
